@@ -24,6 +24,10 @@ def run(ctx):
         sp = sqlprog.spell(p, rng, gaps='blank')      # any spelling of every pool serves as the baseline
         if sqlprog.lexes_as_intended(sp):
             texts.append(('plain', sp.text))
+            # CREATE and CREATE OR REPLACE are one keyword rule: every CREATE statement also in its longer form
+            import re as _re
+            if _re.search(r'(?i)\bcreate table\b', sp.text):
+                texts.append(('plain', _re.sub(r'(?i)\bcreate table\b', 'create or replace table', sp.text)))
     checked_pools()
     scripts = splitfam.emit_scripts(ctx, PROC_ALL + ['caseexpr', 'txbegin'], 5, 'C11_proc', simulate=500 if quick else 5000,
                                     maxlen=36, minlen=6, seed=ctx.seed * 5 + 2)
